@@ -1,12 +1,14 @@
 -- regenerated on every run (gengram -phase facts): distinct import sets of the generated inspector files
 namespace Inspector
 def generatedImportSets : List (List String) := [
+  ["\"bytes\"", "\"encoding/json\"", "\"gen/decl\"", "\"github.com/koykov/byteconv\"", "\"github.com/koykov/inspector\""],
   ["\"bytes\"", "\"encoding/json\"", "\"gen/decl\"", "\"github.com/koykov/byteconv\"", "\"github.com/koykov/inspector\"", "\"strconv\""],
   ["\"bytes\"", "\"encoding/json\"", "\"github.com/koykov/byteconv\"", "\"github.com/koykov/inspector\"", "\"github.com/koykov/inspector/testobj\"", "\"strconv\""],
+  ["\"encoding/json\"", "\"gen/decl\"", "\"github.com/koykov/byteconv\"", "\"github.com/koykov/inspector\""],
   ["\"encoding/json\"", "\"gen/decl\"", "\"github.com/koykov/inspector\""],
   ["\"encoding/json\"", "\"gen/decl\"", "\"github.com/koykov/inspector\"", "\"strconv\""],
   ["\"encoding/json\"", "\"github.com/koykov/inspector\"", "\"github.com/koykov/inspector/testobj\""],
   ["\"encoding/json\"", "\"github.com/koykov/inspector\"", "\"github.com/koykov/inspector/testobj\"", "\"strconv\""]
 ]
-def generatedFilesScanned : Nat := 393
+def generatedFilesScanned : Nat := 426
 end Inspector
